@@ -877,10 +877,10 @@ var ruleC5 = &Rule{
 		// settings key derivation: the value hashed into the fingerprint, as (format literal, ordered string-parameter positions),
 		// computed on SSA through helpers shared by the two functions
 		var keyFmt []string
-		for _, fn := range []string{"getSetting", "putSetting"} {
-			sf := c.SSAFunc(pkgCtrlMaint, fn)
+		putFn, getFn := c.settingsFns()
+		for i, sf := range []*ssa.Function{getFn, putFn} {
 			if sf == nil {
-				obls = append(obls, Obl{Key: "settings key " + fn, Pos: "-", Status: Undecided, Msg: "anchor not found"})
+				obls = append(obls, Obl{Key: "settings key " + []string{"read", "write"}[i] + " routine", Pos: "-", Status: Undecided, Msg: "anchor not found"})
 				continue
 			}
 			keyFmt = append(keyFmt, settingsKeyDerivation(sf, nil, 0))
@@ -1260,70 +1260,37 @@ var ruleC7 = &Rule{
 	Doc: "one recorder per settings key: every (type, name) key under which a retention routine records its applied value (putSetting; the name is resolved to the constants passed at the call sites of the routine) is written by exactly one routine. " +
 		"Two routines sharing a key overwrite each other's record, so each finds a `changed` value on every run and re-issues its ALTERs forever",
 	Run: func(c *Ctx) []Obl {
-		p := c.Pkg(pkgCtrlMaint)
-		if p == nil {
-			return []Obl{{Key: pkgCtrlMaint, Pos: "-", Status: Undecided, Msg: "package not loaded"}}
-		}
-		put := p.Types.Scope().Lookup("putSetting")
-		if put == nil {
-			return []Obl{{Key: "putSetting", Pos: "-", Status: Undecided, Msg: "anchor not found"}}
+		putFn, _ := c.settingsFns()
+		if putFn == nil {
+			return []Obl{{Key: "settings write routine", Pos: "-", Status: Undecided, Msg: "anchor not found"}}
 		}
 		type rec struct {
 			fn  string
 			pos token.Pos
 		}
 		keys := map[string][]rec{}
-		for _, fi := range c.Funcs(c.PkgsUnder(pkgCtrlMaint)) {
-			if !c.LiveFunc(fi) {
-				continue
-			}
-			info := fi.Pkg.TypesInfo
-			self := info.Defs[fi.Decl.Name]
-			ast.Inspect(fi.Decl.Body, func(n ast.Node) bool {
-				call, ok := n.(*ast.CallExpr)
-				if !ok || calleeObj(info, call) != put || len(call.Args) != 4 {
-					return true
-				}
-				tp, _ := constString(info, call.Args[1])
-				if name, ok := constString(info, call.Args[2]); ok {
-					keys[tp+"/"+name] = append(keys[tp+"/"+name], rec{fi.Name(), call.Pos()})
-					return true
-				}
-				// the name is a parameter: resolve at the call sites of this routine
-				id, ok := ast.Unparen(call.Args[2]).(*ast.Ident)
-				if !ok {
-					return true
-				}
-				pidx := -1
-				i := 0
-				for _, f := range fi.Decl.Type.Params.List {
-					for _, nm := range f.Names {
-						if info.Defs[nm] == info.Uses[id] {
-							pidx = i
+		for _, fn := range liveModuleFuncs(c, "ctrl") {
+			for _, b := range fn.Blocks {
+				for _, ins := range b.Instrs {
+					call, ok := ins.(*ssa.Call)
+					if !ok || call.Common().StaticCallee() != putFn {
+						continue
+					}
+					sa := stringArgs(call)
+					if len(sa) < 3 {
+						continue
+					}
+					fname := ssaName(fn)
+					if fi := c.funcInfoOf(fn); fi != nil && fn.Parent() == nil {
+						fname = fi.Name()
+					}
+					for _, tp := range c.constsOf(sa[0], 0) {
+						for _, name := range c.constsOf(sa[1], 0) {
+							keys[tp+"/"+name] = append(keys[tp+"/"+name], rec{fname, call.Pos()})
 						}
-						i++
 					}
 				}
-				if pidx < 0 {
-					return true
-				}
-				for _, cf := range c.Funcs(c.PkgsUnder("ctrl")) {
-					cinfo := cf.Pkg.TypesInfo
-					ast.Inspect(cf.Decl.Body, func(m ast.Node) bool {
-						cc, ok := m.(*ast.CallExpr)
-						if !ok || calleeObj(cinfo, cc) != self || len(cc.Args) <= pidx {
-							return true
-						}
-						if name, ok := constString(cinfo, cc.Args[pidx]); ok {
-							keys[tp+"/"+name] = append(keys[tp+"/"+name], rec{fi.Name(), cc.Pos()})
-						} else {
-							keys[tp+"/?"] = append(keys[tp+"/?"], rec{fi.Name(), cc.Pos()})
-						}
-						return true
-					})
-				}
-				return true
-			})
+			}
 		}
 		var ks []string
 		for k := range keys {
